@@ -2,54 +2,55 @@ import RpmVerif.Lemmas.ExtractBenign
 /-!
 # C12 — extraction recreates the files and never touches anything outside the target
 
-Model: `Model/Fs.lean` (`Fs.extract` = the call sequence of `Package::extract` over a file system with
-symbolic links and a kernel-faithful path walk). Spec: `Spec/Extract.lean`.
+Model: `Model/Fs.lean` — `Fs.extract` is the call sequence of `Package::extract` as it is in /repo
+after `fix: extract() stays inside the destination and reports unsupported file types`
+(`extraction_path`, `refuse_symlinks`, `is_symlink`, the removal of a link before `File::create`, an
+error for other file types), over a file system with symbolic links and a kernel-faithful path walk.
+Spec: `Spec/Extract.lean`.
 
-Full-strength statement of the property (both halves):
+Both halves of the property are proved at full strength, for package views, destinations and file
+systems of any size:
 
-```
-extract_faithful : benign inp → TargetReady fs T →
-    (extract inp T fs).out = .ok () ∧ Contained T fs (extract inp T fs).fs ∧ Faithful T inp (extract inp T fs).fs
-extract_hostile  : ∀ inp T fs, TargetClean fs T →
-    (extract inp T fs).out.isPanic = false ∧ Contained T fs (extract inp T fs).fs
-```
+* `extract_hostile`   : for EVERY package view (any entries in any order: `..` components, absolute and
+                        empty names, duplicates, links followed by entries at or below them, special
+                        file types, errors in the middle, any link targets) extraction into a clean
+                        destination never panics, ends `ok` or `err`, and creates, modifies or removes
+                        nothing that is not the destination or below it; every path in the log is below it.
+                        `extract_hostile_wf` states the same for any tree-shaped file system, with no
+                        assumption about the destination at all.
+* `extract_benign`    : a benign (built) package extracted into a vacant destination ends `ok`, is
+                        contained, and every directory / file / link entry is at destination+path with
+                        exactly its permission bits, content and link target (= `extract_faithful`).
+* `extract_total`     : no run panics.
+* `extract_log_sound` : every change of any run is in the model's log.
 
-`extract_hostile` is FALSE of today's code; its negation is proved below with three independent
-concrete witnesses (`hostile_dotdot_witness`, `hostile_symlink_witness` (+ `_chmod_`),
-`hostile_special_type_witness`; summary `extract_hostile_false`) — packages of the same shape are in
-corpus/C12 (dotdot-base, link-then-below-abs, link-then-same-dir-chmod, fifo, …) and are replayed
-against the real code in the chroot jail on every run.
-What IS true of today's code, for all inputs of any size:
+The three former counterexamples of the hostile clause (a `..` component, a link followed by an entry
+at or below it, a FIFO entry — also in corpus/C12 and replayed against the real code on every run) are
+kept as regression theorems `regress_*`: on the repaired model each yields `err` and an untouched decoy.
 
-* `extract_total_partial` : no panic when only directories, regular files and links occur;
-* `extract_contained`     : nothing outside the destination changes when no path has a `..` component
-                            and no entry's followed path is at or below an EARLIER link entry
-                            (each of the two escape witnesses violates exactly one of the two);
-* `extract_log_sound`     : every change of any run is in the model's log;
-* `extract_benign`        : a benign (built) package extracts with `ok`, contained, every entry at
-                            destination+path with its content, permission bits, link target
-                            (= `extract_faithful`; the design's name `extract_faithful_partial` is kept
-                            as an alias — "partial" only in that the hostile clause above is false).
+What the hypotheses about the caller's side mean (`TargetClean`): the destination's components are
+ordinary names, its proper ancestors are directories (so "below the destination" is meant physically),
+and nothing lies strictly below it — which holds automatically when the destination is vacant in a
+tree-shaped file system (`extract_hostile_wf`), and if it is not vacant `create_dir` fails first.
 -/
 namespace RpmVerif.C12
 open RpmVerif.Fs RpmVerif.Extract
 
-/-- what is assumed of the destination `T` before the call: its components are ordinary names, its
-proper ancestors are directories, and no symbolic link lies at or below it -/
+/-- what is assumed of the destination `T` before the call -/
 structure TargetClean (fs : Fs) (T : Path) : Prop where
   normal : ∀ c ∈ T, Normal c
   parents : ∀ k, 0 < k → k < T.length → ∃ m, fs.get (T.take k) = some (.dir m)
-  noLinks : ∀ q t, T <+: q → fs.get q ≠ some (.symlink t)
+  below : ∀ q, T <+: q → q ≠ T → fs.get q = none
 
 theorem mkdir_target {fs fs0 : Fs} {T : Path} (hc : TargetClean fs T) (h : mkdir fs T = .ok fs0) :
-    Good T fs fs0 [] := by
+    Good T fs fs0 ∧ NoLinksUnder T fs0 := by
   obtain ⟨q, hq, hv, rfl⟩ := mkdir_ok h
   have hqT : q = T := by
     refine resolve_exact fs false T hc.normal (fun k hk hk2 t ht => ?_) (by simp) hq
     obtain ⟨m, hm⟩ := hc.parents k hk hk2
     rw [hm] at ht; cases ht
   subst hqT
-  refine ⟨⟨fun k hk hk2 => ?_, fun q' t hq' hT => ?_⟩, [q], Ext.set _ _ _, by simp⟩
+  refine ⟨⟨⟨fun k hk hk2 => ?_, fun q' n hq' hT hne => ?_⟩, [q], Ext.set _ _ _, by simp⟩, fun q' t hT ht => ?_⟩
   · rw [get_set]
     by_cases he : q.take k = q
     · exact ⟨newDirMode fs q, by simp [he]⟩
@@ -60,155 +61,123 @@ theorem mkdir_target {fs fs0 : Fs} {T : Path} (hc : TargetClean fs T) (h : mkdir
       obtain ⟨m, hm⟩ := hc.parents k hk hlt
       exact ⟨m, by simp [he, hm]⟩
   · rw [get_set] at hq'
+    simp only [hne, if_false] at hq'
+    rw [hc.below q' hT hne] at hq'; cases hq'
+  · rw [get_set] at ht
     by_cases he : q' = q
-    · simp [he] at hq'
-    · simp [he] at hq'
-      exact absurd hq' (hc.noLinks q' t hT)
+    · simp [he] at ht
+    · simp only [he, if_false] at ht
+      rw [hc.below q' hT he] at ht; cases ht
 
-/-- **Containment (the provable half of the hostile-package clause).**
-For EVERY package view without a `..` component in which no entry's followed path is at or below an
-earlier symbolic-link entry — any file types, any names, duplicates, errors in the middle, any link
-targets — the run changes nothing that is not the destination or below it, and every change it
-makes is logged at such a path. -/
-theorem extract_contained (inp : Input) (T : Path) (fs : Fs) (hc : TargetClean fs T)
-    (h1 : noDotDot inp = true) (h2 : noBelowLink inp = true) :
+/-- **The hostile-package clause at full strength.** For every package view whatsoever, extraction into
+a clean destination ends with `ok` or `err` — never a panic — and nothing that is not the destination
+or below it is created, modified or removed; every path the run logs is the destination or below it. -/
+theorem extract_hostile (inp : Input) (T : Path) (fs : Fs) (hc : TargetClean fs T) :
+    (extract inp T fs).out.isPanic = false ∧
+    ((extract inp T fs).out.isOk = true ∨ (extract inp T fs).out.isErr = true) ∧
     Contained T fs (extract inp T fs).fs ∧
-      ∃ L, (extract inp T fs).fs.log = L ++ fs.log ∧ ∀ q ∈ L, T <+: q := by
-  have key : ∃ S, Good T fs (extract inp T fs).fs S ∨ (extract inp T fs).fs = fs := by
+    ∃ L, (extract inp T fs).fs.log = L ++ fs.log ∧ ∀ q ∈ L, T <+: q := by
+  have hnp := extract_not_panic inp T fs
+  refine ⟨hnp, ?_, ?_⟩
+  · cases ho : (extract inp T fs).out with
+    | ok u => exact Or.inl rfl
+    | err e => exact Or.inr rfl
+    | panic s => rw [ho] at hnp; simp [Out.isPanic] at hnp
+  by_cases hne : T = []
+  · subst hne
+    obtain ⟨L, hext⟩ := extract_logged inp [] fs
+    exact ⟨fun q hq => absurd (List.nil_prefix) hq, L, hext.1, fun q _ => List.nil_prefix⟩
+  have key : Good T fs (extract inp T fs).fs ∨ (extract inp T fs).fs = fs := by
     unfold extract
     cases hm : mkdir fs T with
-    | error e => exact ⟨[], Or.inr rfl⟩
+    | error e => exact Or.inr rfl
     | ok fs0 =>
-      have g0 := mkdir_target hc hm
+      obtain ⟨g0, nl0⟩ := mkdir_target hc hm
       simp only [andThen_ok]
-      have hall : ∀ s ∈ allTexts inp, hasDotDot s = false := by
-        simpa [noDotDot, List.all_eq_true] using h1
       cases hd : inp.dirnames with
-      | none => exact ⟨[], Or.inl g0⟩
+      | none => exact Or.inl g0
       | some ds =>
         simp only
-        have hds : ∀ d ∈ ds, ∀ c ∈ compsD d, Normal c := fun d hd' =>
-          compsD_normal (hall d (by simp [allTexts, hd, hd']))
-        have g1 := g0.trans (extractDirs_good hc.normal ds fs0 g0.1 hds)
+        obtain ⟨gd, _⟩ := extractDirs_good hc.normal hne ds fs0 g0.1 nl0
+        have g1 := g0.trans gd
         split
         · rename_i u fs1 heq
           rw [heq] at g1
-          have hits : ∀ it ∈ inp.items, ∀ c ∈ compsD it.path, Normal c := fun it hit =>
-            compsD_normal (hall it.path (by simp only [allTexts, List.mem_append, List.mem_map]; exact Or.inr ⟨it, hit, rfl⟩))
-          obtain ⟨S', g2⟩ := extractItems_good hc.normal inp.items fs1 [] (by simpa using g1.1) h2 hits
-          have g := g1.trans g2
+          have g := g1.trans (extractItems_good hc.normal hne inp.items fs1 g1.1)
           split
           · rename_i u2 fs2 heq2
             rw [heq2] at g
-            split <;> exact ⟨S', Or.inl g⟩
-          · exact ⟨S', Or.inl g⟩
-        · exact ⟨[], Or.inl g1⟩
-  obtain ⟨S, hk | hk⟩ := key
+            split <;> exact Or.inl g
+          · exact Or.inl g
+        · exact Or.inl g1
+  rcases key with hk | hk
   · obtain ⟨_, L, hext, hu⟩ := hk
     exact ⟨fun q hq => hext.2 q (fun hm => hq (hu q hm)), L, hext.1, hu⟩
   · rw [hk]
     exact ⟨fun _ _ => rfl, [], rfl, by simp⟩
 
+/-- a tree-shaped file system: every node other than the root hangs in a directory -/
+def WellFormed (fs : Fs) : Prop := ∀ q n, fs.get q = some n → q ≠ [] → ∃ m, fs.get q.dropLast = some (.dir m)
 
-/-- **No panic when only the three supported file types occur** — for every package view, destination
-and file system (no other assumption: hostile names, `..`, links, errors in the middle are all allowed). -/
-theorem extract_total_partial (inp : Input) (T : List Name) (fs : Fs) (h : threeKinds inp = true) :
-    (extract inp T fs).out.isPanic = false := by
-  have hk : ∀ it ∈ inp.items, it.kind ≠ .other := by
-    simpa [threeKinds, List.all_eq_true] using h
-  unfold extract
-  refine andThen_not_panic _ _ _ (fun fs0 => ?_)
-  cases inp.dirnames with
-  | none => rfl
-  | some ds =>
-    simp only
-    have h1 := extractDirs_not_panic T ds fs0
-    split
-    · rename_i u fs1 heq
-      have h2 := extractItems_not_panic T inp.items fs1 hk
-      split
-      · split <;> rfl
-      · exact h2
-    · exact h1
+theorem wf_below {fs : Fs} (hw : WellFormed fs) {T : Path} (hv : fs.get T = none) :
+    ∀ (n : Nat) (s : List Name), s.length = n → fs.get (T ++ s) = none := by
+  intro n
+  induction n with
+  | zero => intro s hs; rw [List.length_eq_zero_iff.mp hs, List.append_nil]; exact hv
+  | succ n ih =>
+    intro s hs
+    obtain ⟨s', x, hsx⟩ : ∃ s' x, s = s' ++ [x] := by
+      rcases List.eq_nil_or_concat s with h | ⟨s', x, h⟩
+      · subst h; simp at hs
+      · exact ⟨s', x, by rw [h, List.concat_eq_append]⟩
+    subst hsx
+    cases hg : fs.get (T ++ (s' ++ [x])) with
+    | none => rfl
+    | some nd =>
+      exfalso
+      obtain ⟨m, hm⟩ := hw _ nd hg (by simp)
+      rw [← List.append_assoc, List.dropLast_concat] at hm
+      rw [ih s' (by simpa using hs)] at hm; cases hm
 
+/-- **The hostile-package clause for any tree-shaped file system** — nothing is assumed about the
+destination except that its ancestors are directories (if it exists already, `create_dir` fails and
+nothing happens; if it is vacant, nothing can be below it). -/
+theorem extract_hostile_wf (inp : Input) (T : Path) (fs : Fs) (hw : WellFormed fs)
+    (hn : ∀ c ∈ T, Normal c) (hp : ∀ k, 0 < k → k < T.length → ∃ m, fs.get (T.take k) = some (.dir m)) :
+    (extract inp T fs).out.isPanic = false ∧ Contained T fs (extract inp T fs).fs ∧
+    ∃ L, (extract inp T fs).fs.log = L ++ fs.log ∧ ∀ q ∈ L, T <+: q := by
+  cases hv : fs.get T with
+  | none =>
+    have hc : TargetClean fs T := ⟨hn, hp, fun q hq _ => by
+      obtain ⟨s, rfl⟩ := hq
+      exact wf_below hw hv s.length s rfl⟩
+    obtain ⟨h1, _, h2, h3⟩ := extract_hostile inp T fs hc
+    exact ⟨h1, h2, h3⟩
+  | some nd =>
+    have hm : ∃ e, mkdir fs T = .error e := by
+      have hres : resolve fs false T = .ok T := resolve_parents fs false T hn hp (by simp)
+      exact ⟨.EEXIST, mkdir_exists hres hv⟩
+    obtain ⟨e, hm⟩ := hm
+    have : (extract inp T fs).fs = fs := by unfold extract; rw [hm]; rfl
+    refine ⟨extract_not_panic inp T fs, ?_, [], ?_, by simp⟩
+    · rw [this]; exact fun _ _ => rfl
+    · rw [this]; rfl
 
-/-! ### witnesses: names are written as bytes (string literals do not evaluate in the kernel) -/
+/-- **No run panics** (all inputs, all destinations, all file systems). -/
+theorem extract_total (inp : Input) (T : List Name) (fs : Fs) : (extract inp T fs).out.isPanic = false :=
+  extract_not_panic inp T fs
 
-/-- `decoy` -/ def nDecoy : Name := [100, 101, 99, 111, 121]
-/-- `file` -/ def nFile : Name := [102, 105, 108, 101]
-/-- `dir` -/ def nDir : Name := [100, 105, 114]
-/-- `target` -/ def nTarget : Name := [116, 97, 114, 103, 101, 116]
-/-- `link` -/ def nLink : Name := [108, 105, 110, 107]
+/-- **The log is sound, for every package and every file system**: the paths a run appends to the log
+account for every difference between the file system before and after. -/
+theorem extract_log_sound (inp : Input) (T : List Name) (fs : Fs) :
+    ∃ L, (extract inp T fs).fs.log = L ++ fs.log ∧ ∀ q, q ∉ L → (extract inp T fs).fs.get q = fs.get q :=
+  extract_logged inp T fs
 
-/-- a jail: `/`, `/decoy/`, `/decoy/file` (content `decoy`, 0644), `/decoy/dir/` (0750); `/target` is vacant -/
-def jail : Fs :=
-  ⟨[([], .dir 0o755), ([nDecoy], .dir 0o755), ([nDecoy, nFile], .file nDecoy 0o644), ([nDecoy, nDir], .dir 0o750)], []⟩
-
-theorem jail_clean : TargetClean jail [nTarget] := by
-  refine ⟨by decide, fun k hk hk2 => ?_, fun q t _ hq => ?_⟩
-  · simp at hk2; omega
-  · have hm := lookup_mem hq
-    have hall : ∀ e ∈ jail.nodes, e.2.isSymlink = false := by decide
-    exact absurd (hall _ hm) (by simp [Node.isSymlink])
-
-/-- DIRNAMES `["/"]`, one regular file `/../decoy/file` (content `pwned`, mode 0600) -/
-def wDotDot : Input :=
-  ⟨some [[47]], [⟨[47, 46, 46, 47] ++ nDecoy ++ [47] ++ nFile, .regular, 0o600, [112, 119, 110, 101, 100], []⟩], true⟩
-
-/-- DIRNAMES `["/"]`, a link `/link` → `/decoy`, then a regular file `/link/file` -/
-def wLink : Input :=
-  ⟨some [[47]], [⟨[47] ++ nLink, .symlink, 0o777, [], [47] ++ nDecoy⟩,
-                 ⟨[47] ++ nLink ++ [47] ++ nFile, .regular, 0o600, [112, 119, 110, 101, 100], []⟩], true⟩
-
-/-- DIRNAMES `["/"]`, a link `/link` → `/decoy/dir`, then a DIRECTORY entry `/link` with mode 0777 (chmod through the link) -/
-def wLinkChmod : Input :=
-  ⟨some [[47]], [⟨[47] ++ nLink, .symlink, 0o777, [], [47] ++ nDecoy ++ [47] ++ nDir⟩,
-                 ⟨[47] ++ nLink, .dir, 0o777, [], []⟩], true⟩
-
-/-- DIRNAMES `["/"]`, one FIFO entry `/file` -/
-def wFifo : Input := ⟨some [[47]], [⟨[47] ++ nFile, .other, 0o644, [], []⟩], true⟩
-
-theorem hostile_dotdot_witness :
-    TargetClean jail [nTarget] ∧ threeKinds wDotDot = true ∧ noBelowLink wDotDot = true ∧
-      (extract wDotDot [nTarget] jail).out.isOk = true ∧
-      (extract wDotDot [nTarget] jail).fs.get [nDecoy, nFile] = some (.file [112, 119, 110, 101, 100] 0o600) ∧
-      ¬ Contained [nTarget] jail (extract wDotDot [nTarget] jail).fs := by
-  refine ⟨jail_clean, by decide +kernel, by decide +kernel, by decide +kernel, by decide +kernel, fun h => ?_⟩
-  have := h [nDecoy, nFile] (by decide)
-  revert this
-  decide +kernel
-
-theorem hostile_symlink_witness :
-    TargetClean jail [nTarget] ∧ threeKinds wLink = true ∧ noDotDot wLink = true ∧
-      (extract wLink [nTarget] jail).out.isOk = true ∧
-      (extract wLink [nTarget] jail).fs.get [nDecoy, nFile] = some (.file [112, 119, 110, 101, 100] 0o600) ∧
-      ¬ Contained [nTarget] jail (extract wLink [nTarget] jail).fs := by
-  refine ⟨jail_clean, by decide +kernel, by decide +kernel, by decide +kernel, by decide +kernel, fun h => ?_⟩
-  have := h [nDecoy, nFile] (by decide)
-  revert this
-  decide +kernel
-
-theorem hostile_symlink_chmod_witness :
-    threeKinds wLinkChmod = true ∧ noDotDot wLinkChmod = true ∧
-      (extract wLinkChmod [nTarget] jail).fs.get [nDecoy, nDir] = some (.dir 0o777) ∧
-      ¬ Contained [nTarget] jail (extract wLinkChmod [nTarget] jail).fs := by
-  refine ⟨by decide +kernel, by decide +kernel, by decide +kernel, fun h => ?_⟩
-  have := h [nDecoy, nDir] (by decide)
-  revert this
-  decide +kernel
-
-theorem hostile_special_type_witness :
-    TargetClean jail [nTarget] ∧ noDotDot wFifo = true ∧ noBelowLink wFifo = true ∧
-      (extract wFifo [nTarget] jail).out.isPanic = true := by
-  refine ⟨jail_clean, by decide +kernel, by decide +kernel, by decide +kernel⟩
-
-
-/-- **Faithful extraction of benign packages** (`extract_faithful` of the design, at full strength for
-the benign half): for every benign package view — any number of directory names and entries, any
-contents, all 12 permission bits, any link targets — extracted into a vacant destination whose
-ancestors are directories, the run ends with `ok`, nothing outside the destination changes, and every
-directory, regular file and link entry is at destination+path with exactly its permission bits,
-content and link target. -/
+/-- **Faithful extraction of benign packages**: for every benign package view — any number of directory
+names and entries, any contents, all 12 permission bits, any link targets — extracted into a vacant
+destination whose ancestors are directories, the run ends with `ok`, nothing outside the destination
+changes, and every directory, regular file and link entry is at destination+path with exactly its
+permission bits, content and link target. -/
 theorem extract_benign (inp : Input) (T : Path) (fs : Fs) (hb : benign inp = true) (hr : TargetReady fs T) :
     (extract inp T fs).out = .ok () ∧ Contained T fs (extract inp T fs).fs ∧ Faithful T inp (extract inp T fs).fs := by
   obtain ⟨ds, hds, htail, hdn, hbi, hnodup⟩ := benign_spec hb
@@ -224,38 +193,95 @@ theorem extract_benign (inp : Input) (T : Path) (fs : Fs) (hb : benign inp = tru
   rw [hres]
   refine ⟨rfl, fun q hq => k2.frame q hq, fun it hit => k2.faithful it (by simp [hit])⟩
 
-
 /-- the design's name for `extract_benign` -/
-theorem extract_faithful_partial (inp : Input) (T : Path) (fs : Fs) (hb : benign inp = true) (hr : TargetReady fs T) :
+theorem extract_faithful (inp : Input) (T : Path) (fs : Fs) (hb : benign inp = true) (hr : TargetReady fs T) :
     (extract inp T fs).out = .ok () ∧ Contained T fs (extract inp T fs).fs ∧ Faithful T inp (extract inp T fs).fs :=
   extract_benign inp T fs hb hr
 
 theorem targetReady_clean {fs : Fs} {T : Path} (h : TargetReady fs T) : TargetClean fs T :=
-  ⟨h.normal, h.parents, fun q t hq hs => by rw [h.vacant q hq] at hs; cases hs⟩
+  ⟨h.normal, h.parents, fun q hq _ => h.vacant q hq⟩
 
-/-- benign packages are inside the region of `extract_contained` and `extract_total_partial` -/
-theorem benign_threeKinds_noDotDot {inp : Input} (h : benign inp = true) : threeKinds inp = true ∧ noDotDot inp = true := by
-  unfold benign at h
-  cases hd : inp.dirnames with
-  | none => rw [hd] at h; simp at h
-  | some ds =>
-    rw [hd] at h
-    simp only [Bool.and_eq_true] at h
-    exact ⟨h.1.1.1.1.1.2, h.1.1.1.1.2⟩
+/-! ### regression: the former counterexamples (names are written as bytes: string literals do not evaluate in the kernel) -/
 
-/-- **The log is sound, for every package and every file system**: the paths a run appends to the log
-account for every difference between the file system before and after (so "the log has no entry
-outside the destination" really means "nothing outside changed", also for hostile packages). -/
-theorem extract_log_sound (inp : Input) (T : List Name) (fs : Fs) :
-    ∃ L, (extract inp T fs).fs.log = L ++ fs.log ∧ ∀ q, q ∉ L → (extract inp T fs).fs.get q = fs.get q :=
-  extract_logged inp T fs
+/-- `decoy` -/ def nDecoy : Name := [100, 101, 99, 111, 121]
+/-- `file` -/ def nFile : Name := [102, 105, 108, 101]
+/-- `dir` -/ def nDir : Name := [100, 105, 114]
+/-- `target` -/ def nTarget : Name := [116, 97, 114, 103, 101, 116]
+/-- `link` -/ def nLink : Name := [108, 105, 110, 107]
 
-/-- the full-strength hostile-package clause is false of the code as it is -/
-theorem extract_hostile_false :
-    ¬ (∀ (inp : Input) (T : Path) (fs : Fs), TargetClean fs T →
-        (extract inp T fs).out.isPanic = false ∧ Contained T fs (extract inp T fs).fs) := by
-  intro h
-  exact hostile_dotdot_witness.2.2.2.2.2 (h wDotDot [nTarget] jail jail_clean).2
+/-- a jail: `/`, `/decoy/`, `/decoy/file` (content `decoy`, 0644), `/decoy/dir/` (0750), a decoy link
+`/decoy/link` → `file`; `/target` is vacant -/
+def jail : Fs :=
+  ⟨[([], .dir 0o755), ([nDecoy], .dir 0o755), ([nDecoy, nFile], .file nDecoy 0o644), ([nDecoy, nDir], .dir 0o750),
+    ([nDecoy, nLink], .symlink nFile)], []⟩
+
+theorem jail_vacant : ∀ q, [nTarget] <+: q → jail.get q = none := by
+  intro q hq
+  cases hg : jail.get q with
+  | none => rfl
+  | some n =>
+    exfalso
+    have hm := lookup_mem hg
+    have hall : ∀ e ∈ jail.nodes, ¬ [nTarget] <+: e.1 := by decide
+    exact hall _ hm hq
+
+theorem jail_clean : TargetClean jail [nTarget] :=
+  ⟨by decide, fun k hk hk2 => by simp at hk2; omega, fun q hq _ => jail_vacant q hq⟩
+
+theorem jail_ready : TargetReady jail [nTarget] :=
+  ⟨by decide, by decide, fun k hk hk2 => by simp at hk2; omega, jail_vacant⟩
+
+/-- DIRNAMES `["/"]`, one regular file `/../decoy/file` (content `pwned`, mode 0600) -/
+def wDotDot : Input :=
+  ⟨some [[47]], [⟨[47, 46, 46, 47] ++ nDecoy ++ [47] ++ nFile, .regular, 0o600, [112, 119, 110, 101, 100], []⟩], true⟩
+
+/-- DIRNAMES `["/"]`, a link `/link` → `/decoy`, then a regular file `/link/file` -/
+def wLink : Input :=
+  ⟨some [[47]], [⟨[47] ++ nLink, .symlink, 0o777, [], [47] ++ nDecoy⟩,
+                 ⟨[47] ++ nLink ++ [47] ++ nFile, .regular, 0o600, [112, 119, 110, 101, 100], []⟩], true⟩
+
+/-- DIRNAMES `["/"]`, a link `/link` → `/decoy/dir`, then a DIRECTORY entry `/link` with mode 0777 -/
+def wLinkChmod : Input :=
+  ⟨some [[47]], [⟨[47] ++ nLink, .symlink, 0o777, [], [47] ++ nDecoy ++ [47] ++ nDir⟩,
+                 ⟨[47] ++ nLink, .dir, 0o777, [], []⟩], true⟩
+
+/-- DIRNAMES `["/"]`, a link `/link` → `/decoy/file`, then a REGULAR file at the same path -/
+def wLinkSame : Input :=
+  ⟨some [[47]], [⟨[47] ++ nLink, .symlink, 0o777, [], [47] ++ nDecoy ++ [47] ++ nFile⟩,
+                 ⟨[47] ++ nLink, .regular, 0o600, [112, 119, 110, 101, 100], []⟩], true⟩
+
+/-- DIRNAMES `["/"]`, one FIFO entry `/file` -/
+def wFifo : Input := ⟨some [[47]], [⟨[47] ++ nFile, .other, 0o644, [], []⟩], true⟩
+
+/-- everything either file system mentions outside `T` is the same in both (the decidable shadow of `Contained`) -/
+def sameOutside (T : Path) (fs fs' : Fs) : Bool :=
+  ((fs.nodes ++ fs'.nodes).map (·.1)).all (fun q => T.isPrefixOf q || fs'.get q == fs.get q)
+
+/-- `..` component: now an error before anything is written -/
+theorem regress_dotdot :
+    (extract wDotDot [nTarget] jail).out.isErr = true ∧ sameOutside [nTarget] jail (extract wDotDot [nTarget] jail).fs = true ∧
+      (extract wDotDot [nTarget] jail).fs.get [nDecoy, nFile] = jail.get [nDecoy, nFile] := by decide +kernel
+
+/-- link followed by a file below it: now refused, the link itself is in the destination, the decoy untouched -/
+theorem regress_symlink :
+    (extract wLink [nTarget] jail).out.isErr = true ∧ sameOutside [nTarget] jail (extract wLink [nTarget] jail).fs = true ∧
+      (extract wLink [nTarget] jail).fs.get [nDecoy, nFile] = jail.get [nDecoy, nFile] ∧
+      (extract wLink [nTarget] jail).fs.get [nTarget, nLink] = some (.symlink ([47] ++ nDecoy)) := by decide +kernel
+
+/-- link followed by a directory entry at the same path: now refused, the decoy directory keeps its mode -/
+theorem regress_symlink_chmod :
+    (extract wLinkChmod [nTarget] jail).out.isErr = true ∧ sameOutside [nTarget] jail (extract wLinkChmod [nTarget] jail).fs = true ∧
+      (extract wLinkChmod [nTarget] jail).fs.get [nDecoy, nDir] = some (.dir 0o750) := by decide +kernel
+
+/-- link followed by a regular file at the same path: the link is replaced, the file is inside the destination -/
+theorem regress_symlink_same :
+    (extract wLinkSame [nTarget] jail).out.isOk = true ∧ sameOutside [nTarget] jail (extract wLinkSame [nTarget] jail).fs = true ∧
+      (extract wLinkSame [nTarget] jail).fs.get [nTarget, nLink] = some (.file [112, 119, 110, 101, 100] 0o600) := by decide +kernel
+
+/-- a FIFO entry: now an error, not a panic -/
+theorem regress_special_type :
+    (extract wFifo [nTarget] jail).out.isErr = true ∧ (extract wFifo [nTarget] jail).out.isPanic = false ∧
+      sameOutside [nTarget] jail (extract wFifo [nTarget] jail).fs = true := by decide +kernel
 
 /-! ### non-vacuity: the hypotheses are satisfiable by concrete, non-trivial values -/
 
@@ -274,17 +300,6 @@ def wBenign : Input :=
     ⟨[47] ++ nA ++ [47] ++ nL, .symlink, 0o777, [], [47] ++ nDecoy ++ [47] ++ nFile⟩,
     ⟨[47] ++ nF, .regular, 0, [1, 2, 3], []⟩], true⟩
 
-theorem jail_ready : TargetReady jail [nTarget] := by
-  refine ⟨by decide, by decide, fun k hk hk2 => ?_, fun q hq => ?_⟩
-  · simp at hk2; omega
-  · cases hg : jail.get q with
-    | none => rfl
-    | some n =>
-      exfalso
-      have hm := lookup_mem hg
-      have hall : ∀ e ∈ jail.nodes, ¬ [nTarget] <+: e.1 := by decide
-      exact hall _ hm hq
-
 example : benign wBenign = true := by decide +kernel
 example : (extract wBenign [nTarget] jail).out = .ok () ∧
     (extract wBenign [nTarget] jail).fs.get [nTarget, nA, nB, nF] = some (.file nDecoy 0o4755) ∧
@@ -294,21 +309,35 @@ example : (extract wBenign [nTarget] jail).out = .ok () ∧
 example : Faithful [nTarget] wBenign (extract wBenign [nTarget] jail).fs :=
   (extract_benign wBenign [nTarget] jail (by decide +kernel) jail_ready).2.2
 
-/-- hostile but inside the region of `extract_contained`: an absolute base name, a duplicate path, a
-link replaced by a link, a FIFO (panic) — and the theorem's conclusion on it -/
+/-- a package of everything hostile at once: `..` only at the end so that the earlier entries run —
+an absolute base name, a duplicate path, a link, an entry below the link, a FIFO, a `..` path -/
 def wOdd : Input :=
   ⟨some [[47], [47] ++ nDecoy ++ [47], []],
    [⟨[47] ++ nDecoy ++ [47] ++ nFile, .regular, 0o644, [1], []⟩,
     ⟨[47] ++ nDecoy ++ [47] ++ nFile, .regular, 0o600, [2], []⟩,
     ⟨[47] ++ nL, .symlink, 0o777, [], [47] ++ nDecoy⟩,
     ⟨[47] ++ nL, .symlink, 0o777, [], [46, 46]⟩,
-    ⟨nF, .other, 0o644, [], []⟩], false⟩
+    ⟨[47] ++ nL ++ [47] ++ nFile, .regular, 0o600, [3], []⟩,
+    ⟨nF, .other, 0o644, [], []⟩,
+    ⟨[47, 46, 46, 47] ++ nDecoy, .dir, 0, [], []⟩], false⟩
 
-example : noDotDot wOdd = true ∧ noBelowLink wOdd = true := by decide +kernel
 example : Contained [nTarget] jail (extract wOdd [nTarget] jail).fs :=
-  (extract_contained wOdd [nTarget] jail jail_clean (by decide +kernel) (by decide +kernel)).1
-example : (extract wOdd [nTarget] jail).out.isPanic = true := by decide +kernel
-example : threeKinds wLink = true ∧ (extract wLink [nTarget] jail).out.isPanic = false :=
-  ⟨by decide +kernel, extract_total_partial wLink [nTarget] jail (by decide +kernel)⟩
+  (extract_hostile wOdd [nTarget] jail jail_clean).2.2.1
+example : (extract wOdd [nTarget] jail).out.isErr = true ∧
+    (extract wOdd [nTarget] jail).fs.get [nTarget, nDecoy, nFile] = some (.file [2] 0o600) ∧
+    sameOutside [nTarget] jail (extract wOdd [nTarget] jail).fs = true := by decide +kernel
+/-- the jail is tree-shaped: `extract_hostile_wf` applies to it with any destination under `/` -/
+example : WellFormed jail := by
+  intro q n hg hne
+  have hm := lookup_mem hg
+  have hall : ∀ e ∈ jail.nodes, e.1 ≠ [] → (jail.get e.1.dropLast).map Node.isDir = some true := by decide
+  have := hall _ hm hne
+  cases hp : jail.get q.dropLast with
+  | none => rw [hp] at this; cases this
+  | some nd =>
+    cases nd with
+    | dir m => exact ⟨m, rfl⟩
+    | file => rw [hp] at this; simp [Node.isDir] at this
+    | symlink => rw [hp] at this; simp [Node.isDir] at this
 
 end RpmVerif.C12
